@@ -105,15 +105,52 @@ async def run_case(case):
                             if raises:
                                 raise RuntimeError("teardown action failed")
                             stop.set()
-                if sid % 2:
+                if sid % 2 and helper.get("ready"):
+                    # the call is made on the owning context by a task whose current context is another
+                    # one (the outer context): the task belongs to the context whose method was called
+                    helper["job"] = (ctx, make_task(d, sid, sv, stop), f"s{sid}", ta)
+                    helper["done"] = anyio.Event()
+                    helper["go"].set()
+                    await helper["done"].wait()
+                    if helper.get("error"):
+                        raise helper["error"]
+                elif sid % 2:
                     await ctx.start_service_task(make_task(d, sid, sv, stop), f"s{sid}", teardown_action=ta)
                 else:
                     await start_service_task(make_task(d, sid, sv, stop), f"s{sid}", teardown_action=ta)
             # EndBlock: fall out of the loop body -> the block ends
 
+    helper = {}
+
+    async def helper_task():
+        helper["go"] = anyio.Event()
+        helper["ready"] = True
+        while True:
+            await helper["go"].wait()
+            helper["go"] = anyio.Event()
+            c, fn, name, ta = helper["job"]
+            try:
+                await c.start_service_task(fn, name, teardown_action=ta)
+            except BaseException as e:  # noqa
+                helper["error"] = e
+            helper["done"].set()
+
     async def owner():
         try:
             if case["nested"]:
+                async with Context():
+                    async with anyio.create_task_group() as htg:
+                        htg.start_soon(helper_task)          # its current context is the outer one
+                        await anyio.sleep(0)
+                        await anyio.sleep(0)
+                        try:
+                            async with Context() as ctx:
+                                await owner_body(ctx)
+                            d.obs("Left")
+                            result["left"] = True
+                        finally:
+                            htg.cancel_scope.cancel()
+            elif False:
                 async with Context():
                     async with Context() as ctx:
                         await owner_body(ctx)
